@@ -1,6 +1,18 @@
+def classify_crash(cr):
+    """Attribute a crash of a harness case to a library call site.  The harness prints `#in <solver> <rep> S A O h` before every library
+    call (check.py keeps the last one as 'context').  The only crash known: Projecter's constructor on a model without Eigen accessors
+    returns a transposed view of a temporary (fixes/C02-3), which ASan reports as stack-use-after-scope in computeImmediateRewards."""
+    ctx = (cr.get('context') or [''])[-1].split()
+    solver = ctx[1] if len(ctx) > 2 else 'C02'
+    rep = ctx[2] if len(ctx) > 2 else ''
+    if cr.get('kind') == 'crash' and 'stack-use-after-scope' in cr.get('detail', '') and 'computeImmediateRewards' in cr.get('stderr_tail', '') and rep == 'generic':
+        return ('Projecter', 'generic_model_use_after_scope')
+    return (solver if solver in ('IncrementalPruning', 'Witness', 'LinearSupport', 'RTBSS') else 'C02', cr['kind'])
+
+
 SPEC = {
     'id': 'C02',
-    'lean_modules': ['AITB.Props.C02', 'AITB.Props.C02b'],
+    'lean_modules': ['AITB.Props.C02', 'AITB.Props.C02b', 'AITB.Props.C02c'],
     'theorems': [
         'AITB.POMDP.sum_max_eq_max_choice',
         'AITB.POMDP.envelope_crossSum',
@@ -57,14 +69,41 @@ SPEC = {
         'AITB.POMDP.lsScan_spec',
         'AITB.POMDP.ls_sound',
         'AITB.POMDP.ls_break_tested',
+        # round 3 (AITB.Props.C02c)
+        'AITB.POMDP.domBy_sound',
+        'AITB.POMDP.coverStep_sound',
+        'AITB.POMDP.checkExactChain_sound',
+        'AITB.POMDP.checkExactChain_sound_from_zero',
+        'AITB.POMDP.wbd_close',
+        'AITB.POMDP.wbd_sound',
+        'AITB.POMDP.outerGo_length_le',
+        'AITB.POMDP.outerGo_exact',
+        'AITB.POMDP.outerGo_noTol',
+        'AITB.POMDP.outerGo_variation',
+        'AITB.POMDP.outerGo_early_stop',
+        'AITB.POMDP.outerGo_stops_at_tol',
+        'AITB.POMDP.solver_loop_exact',
+        'AITB.POMDP.solver_loop_tol0_horizon',
+        'AITB.POMDP.solveOuter_h0',
+        'AITB.POMDP.lsAccept_false_bound',
+        'AITB.POMDP.wReserve_room',
+        'AITB.POMDP.wLoopG_false',
+        'AITB.POMDP.witness_repaired_terminates',
+        'AITB.POMDP.wStepG_eq_wStep_of_sound',
+        'AITB.POMDP.witness_shipped_loops_counterexample',
     ],
-    'gen_obligations': ['AITB.POMDP.rtbss_as_extracted_full', 'AITB.POMDP.rtbss_as_extracted', 'AITB.POMDP.fvn_as_extracted', 'AITB.POMDP.sites_match_model'],
+    'gen_obligations': ['AITB.POMDP.sites3_match_model', 'AITB.POMDP.witness_loop_as_extracted', 'AITB.POMDP.rtbss_as_extracted_full', 'AITB.POMDP.rtbss_as_extracted', 'AITB.POMDP.fvn_as_extracted', 'AITB.POMDP.sites_match_model'],
     'harness': 'harness/c02.cpp',
     'level': 'proof',
     'timeout': {'quick': 600, 'thorough': 3000},
-    'case_timeout': 120,
+    'case_timeout': 90,
     'crash_component': 'C02',
-    'rule': 'hand-written instances first (Tiger; an instance with an impossible observation + duplicate + dominated action; all-negative-reward '
+    'classify_crash': classify_crash,
+    'rule': 'round 3 adds: fixed cases 4..9 (horizon 0; tolerances; rewards x 2^20/2^24; a generic non-Eigen model; the Witness non-termination witness; '
+            'the large-magnitude findVerticesNaive/LinearSupport witness) and, per generated case, a second run in one of: horizon 0, rewards x 2^17..2^24, '
+            'tolerance runs (op vftol), generic model, O = 4..6, lopsided shapes (S/A/O = 1), information-gathering instances with many exact ties. '
+            'Exact-mode lines are decided on ALL beliefs by checkExactChain (cover certificates). Round 1-2 rule: '
+            'hand-written instances first (Tiger; an instance with an impossible observation + duplicate + dominated action; all-negative-reward '
             'instances for RTBSS incl. the Lean counterexample; the LinearSupport edge-vertex witness), then seeded random POMDPs (S 1..4, A 1..3, O 1..3, '
             'h 1..3 (4 thorough); deterministic, noisy and partly impossible observations; duplicate, dominated, state-matched and tied rewards; a non-dyadic '
             '"ugly" stream), each solved by IncrementalPruning, Witness, LinearSupport on the dense model (and on the sparse model for a third of the '
@@ -75,10 +114,11 @@ SPEC = {
                  'POMDP/Algorithms/Utils/Projecter.hpp (all)', 'IncrementalPruning::crossSum and operator() (merge schedule as written; Pruner = any envelope-preserving function)',
                  'Witness: vectors as per-observation choices and their variations (LP witness search = hypothesis)',
                  'RTBSS::sampleAction/simulate/upperBound as written, parameterised by the two sites read from the source',
-                 'NOT modelled, outputs checked per instance: Pruner/WitnessLP (lp_solve), LinearSupport agenda + findVerticesNaive, Witness agenda order'],
+                 'src/POMDP/Utils.cpp makeValueFunction, weakBoundDistance; the outer loop of the three solvers (tolerance, horizon, returned variation); LinearSupport acceptance test; Witness row reservation; Witness loop with/without the C02-4 repair',
+                 'NOT modelled, outputs checked per instance: Pruner/WitnessLP (lp_solve), findVerticesNaive QR solve'],
     'assumptions': ['double arithmetic read as exact rational arithmetic; Eigen dense/sparse products read as sums',
                     'tables row-stochastic (harness generates exactly such; driver re-checks), no observation probability in (0, 1e-6] (driver skips otherwise)',
                     'lp_solve and the LP-based pruner are untrusted: only their effect on the returned value function is checked',
-                    'completeness of the belief set (partition vertices + clause (i)) rests on a convexity argument that is not a Lean theorem',
-                    'forall O, scheduleOK O is open: checked by kernel evaluation for O <= 64 and per instance by the driver'],
+                    'exact-mode lines: completeness over all beliefs is decided by checkExactChain (proved sound); non-exact lines (O not a power of 2, non-dyadic stream) still rest on partition vertices + 1e-9',
+                    'Witness runs are killed after 10 s (15 s thorough) and reported as does_not_terminate: the same instance takes IncrementalPruning milliseconds'],
 }
